@@ -73,6 +73,30 @@ def bout_up(v, x, y, ny):
     )
 
 
+def pins_obligations(ctx, eq, topo):
+    """T7: X-point corner pins sit at the radial edge of that X-point's own separatrix."""
+    nis_pos = topo in ("ldn", "udn", "ldn_upper_outer_start", "udn_upper_outer_start")
+    for nm, reg in eq.regions.items():
+        for lst, which in ((reg.xPointsAtStart, "start"), (reg.xPointsAtEnd, "end")):
+            ctx.oblige(TRUE(len(lst) == reg.nSegments + 1), "T7:%s.xPointsAt%s has one entry per radial edge" % (nm, which.capitalize()))
+            for k, xp in enumerate(lst):
+                if xp is None:
+                    continue
+                primary = xp is eq.x_points[0]
+                want = 1 if (primary or not nis_pos) else 2
+                ctx.oblige(TRUE(k == want), "T7:%s: X-point at the %s is pinned on its own separatrix (radial edge %d)" % (nm, which, want))
+
+
+def make_pins_run(topo):
+    def run(ctx):
+        eq, info = tk.build_equilibrium(ctx, topo)
+        with spec_mode():
+            pins_obligations(ctx, eq, topo)
+        return eq
+
+    return run
+
+
 def make_run(topo):
     def run(ctx):
         eq, info = tk.build_equilibrium(ctx, topo)
@@ -153,17 +177,7 @@ def make_run(topo):
                 gl = myg if c["lower"] is None else 0
                 gu = myg if c["upper"] is None else 0
                 ctx.oblige(box[rid][4] - box[rid][3] == eq.regions[nm].ny_noguards + gl + gu, "T3:region %d carries y_boundary_guards rows exactly at its targets" % rid)
-            # ---- T7 X-point corner pins sit at the radial edge of that X-point's own separatrix
-            nis_pos = topo in ("ldn", "udn", "ldn_upper_outer_start", "udn_upper_outer_start")
-            for nm, reg in eq.regions.items():
-                for lst, which in ((reg.xPointsAtStart, "start"), (reg.xPointsAtEnd, "end")):
-                    ctx.oblige(TRUE(len(lst) == reg.nSegments + 1), "T7:%s.xPointsAt%s has one entry per radial edge" % (nm, which.capitalize()))
-                    for k, xp in enumerate(lst):
-                        if xp is None:
-                            continue
-                        primary = xp is eq.x_points[0]
-                        want = 1 if (primary or not nis_pos) else 2
-                        ctx.oblige(TRUE(k == want), "T7:%s: X-point at the %s is pinned on its own separatrix (radial edge %d)" % (nm, which, want))
+            pins_obligations(ctx, eq, topo)
             # ---- T5 dy
             ctx.oblige(TRUE(nstmts >= 10), "topology block of writeGridfile found (%d statements)" % nstmts)
         return mesh
